@@ -54,9 +54,17 @@ fn rand_batch<T: Tab + Send>(op: &Value, out: &mut Vec<Value>) {
             let _ = std::panic::catch_unwind(|| Lut::random(k));
         }
     };
+    // a draw of another size made by the same thread between any two draws of the batch
+    let inter: Option<usize> = op.get("inter").and_then(|v| v.as_u64()).map(|x| x as usize);
+    let draw_i = move || {
+        if let Some(k) = inter {
+            let _ = std::panic::catch_unwind(|| Lut::random(k));
+        }
+        draw::<T>(n)
+    };
     let results: Vec<Vec<Value>> = if threads <= 1 {
         warm_up(&warm);
-        vec![(0..count).map(|_| draw::<T>(n)).collect()]
+        vec![(0..count).map(|_| draw_i()).collect()]
     } else {
         let barrier = std::sync::Arc::new(std::sync::Barrier::new(threads));
         let handles: Vec<_> = (0..threads)
@@ -66,7 +74,7 @@ fn rand_batch<T: Tab + Send>(op: &Value, out: &mut Vec<Value>) {
                 std::thread::spawn(move || {
                     b.wait();
                     warm_up(&w);
-                    (0..count).map(|_| draw::<T>(n)).collect::<Vec<Value>>()
+                    (0..count).map(|_| draw_i()).collect::<Vec<Value>>()
                 })
             })
             .collect();
